@@ -2,6 +2,7 @@
 import json
 import math
 import multiprocessing
+import pathlib
 import os
 import re
 import time
@@ -35,7 +36,8 @@ EXPLANATION = (
     "are also evaluated directly on the implementation's own functions.")
 
 REVIEWED_RE = re.compile(
-    r'mk_site "([^"]*)" "([^"]*)" "([^"]*)" "([^"]*)" \((?:Some \(?(-?\d+)\)?%Z|None)\) (\d+)')
+    r'mk_site "([^"]*)" "([^"]*)" "([^"]*)" "((?:[^"]|"")*)" '
+    r'(?:\(Some \(?(-?\d+)\)?%Z\)|None) (\d+)')
 
 SRC_FILES = ["helpers.py", "hydrodynamics.py", "equationOfMotion.py", "grid3Scales.py"]
 
@@ -54,11 +56,27 @@ YUKAWA4 = dict(kind="yukawa", Tn=4.0, sigma=0.0, msq=0.25, gamma=-0.6, lam=0.10,
 QUARTIC = dict(kind="quartic1", Tn=83.0, D=0.2, E=0.05, lam=0.1, T0=80.0, g=100.0,
                dTscale=2.0, phiscale=50.0, wallThicknessGuess=5.0, meanFreePathScale=50.0)
 MODELS = {"yukawa": YUKAWA, "yukawa4": YUKAWA4, "quartic1": QUARTIC}
+# NON-polynomial potential (quartic + kappa phi^4 ln((phi^2+T^2)/mu^2)): the order-4 finite-
+# difference stencils are exact on polynomials of degree <= 4 for ANY step, so only a model
+# like this one makes the derivative steps (variation scales) matter
+MODELS["quarticlog"] = dict(kind="quartic1", Tn=1.8, D=0.2, E=0.12, lam=0.1, T0=1.0, g=100.0,
+                            kappa=0.02, mu=4.5, ph2=3.5, dTscale=0.02, phiscale=1.0,
+                            wallThicknessGuess=5.0, meanFreePathScale=50.0)
+# two fields (xSM-like high-T potential): offsets and the multi-field code paths
+MODELS["xsm"] = dict(kind="xsm", Tn=100.0, dTscale=10.0, phiscale=50.0, ph1=(0.0, 200.0),
+                     ph2=(246.0, 0.0), wallThicknessGuess=5.0, meanFreePathScale=50.0)
 
 TOLSETS = {
     # name -> (config overrides)
     "default": dict(errTol=1e-3, phaseTracerTol=1e-8, hydroRtol=1e-6, hydroAtol=1e-10),
     "tight": dict(errTol=2e-4, phaseTracerTol=1e-9, hydroRtol=1e-7, hydroAtol=1e-11),
+    # the configuration as shipped (config.py defaults: nothing overridden)
+    "shipped": dict(errTol=1e-3, phaseTracerTol=1e-6, hydroRtol=1e-6, hydroAtol=1e-10,
+                    shipped=True),
+    # documented dimensionful / unit-relative configuration knobs set to non-default values
+    "knobs": dict(errTol=1e-3, phaseTracerTol=1e-8, hydroRtol=1e-6, hydroAtol=1e-10,
+                  knobs=dict(phaseTracerFirstStep=0.1, thermo_tmin=0.85, thermo_tmax=1.15,
+                             wallThicknessBounds=[0.2, 60.0])),
 }
 
 
@@ -98,6 +116,31 @@ class Setup:
 
             def dmsq(fields):
                 return 2 * p["y"] * (p["mf"] + p["y"] * fields.getField(0))
+        elif spec["kind"] == "xsm":
+            x = self.p = {"u": 1.0}
+
+            class Pot(WallGo.EffectivePotential):
+                fieldCount = 2
+                effectivePotentialError = 1e-15
+
+                def evaluate(self, fields, temperature):
+                    u = x["u"]
+                    fields = Fields(fields)
+                    v, sg = fields.getField(0), fields.getField(1)
+                    T = temperature
+                    muHsq = -7812.5 * u ** 2 + 0.43706270108632417 * T ** 2
+                    muSsq = -12832.2 * u ** 2 + 0.4 * T ** 2
+                    lHH, lSS, lHS = 0.12909808976138543, 1.0, 0.9
+                    return (0.5 * muHsq * v ** 2 + 0.25 * lHH * v ** 4 + 0.5 * muSsq * sg ** 2
+                            + 0.25 * lSS * sg ** 4 + 0.25 * lHS * v ** 2 * sg ** 2
+                            - 107.75 * np.pi ** 2 / 90 * T ** 4)
+            pot = Pot()
+
+            def msq(fields):
+                return 0.5 * fields.getField(0) ** 2
+
+            def dmsq(fields):
+                return np.transpose([fields.getField(0), 0 * fields.getField(1)])
         else:
             q = self.p = {}
 
@@ -109,8 +152,11 @@ class Setup:
                     fields = Fields(fields)
                     phi = fields.getField(0)
                     T = np.asarray(temperature)
-                    return (q["D"] * (T ** 2 - q["T0"] ** 2) * phi ** 2 - q["E"] * T * phi ** 3
-                            + q["lam"] / 4 * phi ** 4 - q["g"] * math.pi ** 2 / 90 * T ** 4)
+                    V = (q["D"] * (T ** 2 - q["T0"] ** 2) * phi ** 2 - q["E"] * T * phi ** 3
+                         + q["lam"] / 4 * phi ** 4 - q["g"] * math.pi ** 2 / 90 * T ** 4)
+                    if q["kappa"]:
+                        V = V + q["kappa"] * phi ** 4 * np.log((phi ** 2 + T ** 2) / q["mu"] ** 2)
+                    return V
             pot = Pot()
 
             def msq(fields):
@@ -123,17 +169,26 @@ class Setup:
             def __init__(self):
                 self.effectivePotential = pot
                 self.clearParticles()
-                self.addParticle(Particle("top", index=1, msqVacuum=msq, msqDerivative=dmsq,
-                                          statistics="Fermion", totalDOFs=12))
+                if spec["kind"] == "yukawa":
+                    # as in Models/Yukawa: the shipped collision files are for psiL, psiR
+                    for i, nm in enumerate(["psiL", "psiR"]):
+                        self.addParticle(Particle(nm, index=i + 1, msqVacuum=msq,
+                                                  msqDerivative=dmsq, statistics="Fermion",
+                                                  totalDOFs=2))
+                else:
+                    self.addParticle(Particle("top", index=1, msqVacuum=msq,
+                                              msqDerivative=dmsq, statistics="Fermion",
+                                              totalDOFs=12))
 
             @property
             def fieldCount(self):
-                return 1
+                return pot.fieldCount
 
             def getEffectivePotential(self):
                 return self.effectivePotential
         self.pot = pot
         self.model = Model()
+        self.typed = "float"
 
     def present(self, u):
         spec = self.spec
@@ -143,11 +198,20 @@ class Setup:
                           gamma=spec["gamma"] * u, lam=spec["lam"], y=spec["y"],
                           mf=spec["mf"] * u)
             self.ph1, self.ph2 = spec["phase1"] * u, spec["phase2"] * u
+        elif spec["kind"] == "xsm":
+            self.p["u"] = float(u)
+            self.ph1 = [c * u for c in spec["ph1"]]
+            self.ph2 = [c * u for c in spec["ph2"]]
         else:
             self.p.update(D=spec["D"], E=spec["E"], lam=spec["lam"], T0=spec["T0"] * u,
-                          g=spec["g"])
-            ex = wgmodels.quartic1_exact(**self.p)
-            self.ph1, self.ph2 = 0.0, ex["phi_broken"](spec["Tn"] * u)
+                          g=spec["g"], kappa=spec.get("kappa", 0.0),
+                          mu=spec.get("mu", 1.0) * u)
+            if "ph2" in spec:
+                self.ph1, self.ph2 = 0.0, spec["ph2"] * u
+            else:
+                ex = wgmodels.quartic1_exact(**{k: self.p[k] for k in
+                                                ("D", "E", "lam", "T0", "g")})
+                self.ph1, self.ph2 = 0.0, ex["phi_broken"](spec["Tn"] * u)
 
     def new_manager(self):
         import logging
@@ -155,12 +219,19 @@ class Setup:
         tols = self.tols
         manager = WallGo.WallGoManager()
         manager.setVerbosity(logging.ERROR)
-        manager.config.configGrid.spatialGridSize = 20
-        manager.config.configEOM.maxIterations = 25
-        manager.config.configEOM.errTol = tols["errTol"]
-        manager.config.configThermodynamics.phaseTracerTol = tols["phaseTracerTol"]
-        manager.config.configHydrodynamics.relativeTol = tols["hydroRtol"]
-        manager.config.configHydrodynamics.absoluteTol = tols["hydroAtol"]
+        if not tols.get("shipped"):
+            manager.config.configGrid.spatialGridSize = 20
+            manager.config.configEOM.maxIterations = 25
+            manager.config.configEOM.errTol = tols["errTol"]
+            manager.config.configThermodynamics.phaseTracerTol = tols["phaseTracerTol"]
+            manager.config.configHydrodynamics.relativeTol = tols["hydroRtol"]
+            manager.config.configHydrodynamics.absoluteTol = tols["hydroAtol"]
+        kn = tols.get("knobs", {})
+        if kn:
+            manager.config.configThermodynamics.phaseTracerFirstStep = kn["phaseTracerFirstStep"]
+            manager.config.configThermodynamics.tmin = kn["thermo_tmin"]
+            manager.config.configThermodynamics.tmax = kn["thermo_tmax"]
+            manager.config.configEOM.wallThicknessBounds = list(kn["wallThicknessBounds"])
         manager.registerModel(self.model)
         self.manager = manager
         # purity: no call may change the user's configuration object
@@ -174,12 +245,24 @@ class Setup:
         self.present(u)
         manager = self.manager if (reuse_manager and self.manager is not None) \
             else self.new_manager()
-        phaseInfo = WallGo.PhaseInfo(temperature=spec["Tn"] * u,
-                                     phaseLocation1=Fields([self.ph1]),
-                                     phaseLocation2=Fields([self.ph2]))
+        def ty(x):
+            """as a user would type the number: an int when it is one (typed == "int")"""
+            if isinstance(x, (list, tuple)):
+                return [ty(c) for c in x]
+            if self.typed in ("int", "intall") and \
+                    abs(x - round(x)) < 1e-9 * max(1.0, abs(x)):
+                return int(round(x))
+            return x
+        nf = self.pot.fieldCount
+        as_list = lambda v: list(v) if isinstance(v, (list, tuple)) else [v]
+        phaseInfo = WallGo.PhaseInfo(temperature=ty(spec["Tn"] * u),
+                                     phaseLocation1=Fields(ty(as_list(self.ph1))),
+                                     phaseLocation2=Fields(ty(as_list(self.ph2))))
         scales = WallGo.VeffDerivativeSettings(
-            temperatureVariationScale=spec["dTscale"] * u,
-            fieldValueVariationScale=[spec["phiscale"] * u])
+            temperatureVariationScale=ty(spec["dTscale"] * u) if self.typed != "int"
+            else spec["dTscale"] * u,
+            fieldValueVariationScale=ty([spec["phiscale"] * u] * nf)
+            if self.typed != "scalar" else ty(spec["phiscale"] * u))
         b1, b2 = flat(phaseInfo, "phaseInfo"), flat(scales, "veffDerivativeScales")
         manager.setupThermodynamicsHydrodynamics(phaseInfo, scales)
         self.input_mutations = mutated(b1, phaseInfo, "phaseInfo") + \
@@ -233,25 +316,110 @@ def uninterpolated(pot, manager, Tn):
                 csqLow0=float(th0.csqLowT(Tn)))
 
 
+def J(model, unit, tols="default", stages=(), history=(), mode="model", hist_stages=(),
+      variant=""):
+    """a job for solve_case (hashable key of a run)"""
+    return (model, float(unit), tols, tuple(stages), tuple(float(h) for h in history), mode,
+            tuple(hist_stages), variant)
+
+
+def in_use(pot, spec, u):
+    """what the potential's derivative routines really use: the private array of combined
+    scales, and the derivatives themselves at a fixed PHYSICAL point (rescaled)"""
+    from WallGo import Fields
+    out = {}
+    arrs = [v for k, v in vars(pot).items() if "combinedScales" in k]
+    arrs += [getattr(type(pot), k) for k in dir(type(pot)) if "combinedScales" in k
+             and not callable(getattr(type(pot), k)) and not arrs]
+    if arrs and arrs[0] is not None:
+        a = np.asarray(arrs[0], dtype=float).reshape(-1)
+        out["scaleInUsePhi"], out["scaleInUseT"] = float(a[0]), float(a[-1])
+    nf = pot.fieldCount
+    ph2 = spec.get("ph2", spec.get("phase2", 1.0))
+    ph2 = list(ph2) if isinstance(ph2, (list, tuple)) else [ph2]
+    ph1 = spec.get("ph1", spec.get("phase1", 0.0))
+    ph1 = list(ph1) if isinstance(ph1, (list, tuple)) else [ph1] * nf
+    if "ph2" not in spec and "phase2" not in spec:
+        ph2 = [3.0 * spec["Tn"]] * nf
+    pt = Fields([(0.6 * b + 0.4 * a + 0.05 * spec["Tn"]) * u for a, b in zip(ph1, ph2)])
+    T = 1.03 * spec["Tn"] * u
+    out["probe_dVdphi"] = float(np.asarray(pot.derivField(pt, T)).reshape(-1)[0])
+    out["probe_d2Vdphi2"] = float(np.asarray(pot.deriv2Field2(pt, T)).reshape(-1)[0])
+    out["probe_dVdT"] = float(np.asarray(pot.derivT(pt, T)).reshape(-1)[0])
+    out["probe_d2VdphidT"] = float(np.asarray(pot.deriv2FieldT(pt, T)).reshape(-1)[0])
+    return out
+
+
 def solve_case(job):
-    """job = (model name, unit, tolerance set name, stages). Returns a dict of outputs in
-    the units of the run (dimensionful ones are rescaled by the caller)."""
-    name, unit, tolname, stages = job[:4]
-    # history: units in which the SAME model object (mode "model": fresh manager each time;
-    # mode "manager": the same manager too) was set up before the run that is reported
-    history, mode = (job[4], job[5]) if len(job) > 4 else ((), "model")
+    """job = J(...). Returns a dict of outputs in the units of the run (dimensionful ones are
+    rescaled by the caller).
+    history     : units in which the SAME model object (mode "model": fresh manager each
+                  time; mode "manager": the same manager too) was set up -- and, with
+                  hist_stages, solved -- before the run that is reported;
+    variant     : "int" (inputs typed as integers where they are integers), "scalar" (a
+                  scalar fieldValueVariationScale), "scaledstep" (counterfactual for the known
+                  finding: scipy's finite-difference step in findLocalMinimum scaled with the
+                  field variation scale)."""
+    name, unit, tolname, stages, history, mode, hist_stages, variant = job
     spec, tols = MODELS[name], TOLSETS[tolname]
     t0 = time.time()
-    out = dict(model=name, unit=unit, tols=tolname, history=list(history), mode=mode)
+    out = dict(model=name, unit=unit, tols=tolname, history=list(history), mode=mode,
+               hist_stages=list(hist_stages), variant=variant, stages=list(stages))
+    st = None
     try:
         import WallGo
         st = Setup(spec, tols)
+        if variant in ("int", "intall", "scalar"):
+            st.typed = variant
+        if variant == "scaledstep":
+            import scipy.optimize
+            orig = scipy.optimize.minimize
+
+            def scaled(f, x0, *a, **kw):
+                if "method" not in kw and "bounds" not in kw and st.unit is not None:
+                    o = dict(kw.pop("options", None) or {})
+                    o.setdefault("eps", 1.4901161193847656e-08 * spec["phiscale"] * st.unit)
+                    kw["options"] = o
+                return orig(f, x0, *a, **kw)
+            scipy.optimize.minimize = scaled
+        offeq = "offeq" in stages
+        settings = WallGo.WallSolverSettings(
+            bIncludeOffEquilibrium=offeq, meanFreePathScale=spec["meanFreePathScale"],
+            wallThicknessGuess=spec["wallThicknessGuess"])
+        s0 = flat(settings, "wallSolverSettings")
+
+        def wall(manager, target, tag):
+            res = manager.solveWall(settings)
+            target["solveWallMessage" + tag] = str(getattr(res, "message", ""))[:120]
+            if res.wallVelocity is None:
+                raise RuntimeError("solveWall returned no wall velocity (message: %s)" % (
+                    getattr(res, "message", None),))
+            target.update({"success" + tag: bool(res.success),
+                           "vw" + tag: float(res.wallVelocity),
+                           "vwLTEres" + tag: float(res.wallVelocityLTE),
+                           "width" + tag: float(res.wallWidths[0]),
+                           "Tplus" + tag: float(res.temperaturePlus),
+                           "Tminus" + tag: float(res.temperatureMinus)})
+            if len(res.wallWidths) > 1:       # offsets[0] is 0 by construction
+                target.update({"width_b" + tag: float(res.wallWidths[1]),
+                               "offset_b" + tag: float(res.wallOffsets[1])})
+
         for h in history:
-            st.setup(h, reuse_manager=(mode == "manager"))
+            mh = st.setup(h, reuse_manager=(mode == "manager"))
+            scratch = {}
+            if "lte" in hist_stages:
+                mh.wallSpeedLTE()
+            if "wall" in hist_stages:
+                wall(mh, scratch, "")
         manager = st.setup(unit, reuse_manager=(mode == "manager"))
+        if offeq:
+            # collision integrals are in units of T: the same shipped files in every units
+            manager.setPathToCollisionData(pathlib.Path(
+                vlib.REPO, "Models", "Yukawa", "CollisionOutput_N11"))
         ds = st.pot.derivativeSettings
         out["dTscale"] = float(ds.temperatureVariationScale)
         out["phiscale"] = float(np.asarray(ds.fieldValueVariationScale).reshape(-1)[0])
+        out.update(in_use(st.pot, spec, unit))
         Tn = spec["Tn"] * unit
         th, hy = manager.thermodynamics, manager.hydrodynamics
         out.update(
@@ -279,32 +447,24 @@ def solve_case(job):
         if "lte" in stages:
             out["vwLTE"] = float(manager.wallSpeedLTE())
         if "wall" in stages:
-            settings = WallGo.WallSolverSettings(
-                bIncludeOffEquilibrium=False,
-                meanFreePathScale=spec["meanFreePathScale"],
-                wallThicknessGuess=spec["wallThicknessGuess"])
-            s0 = flat(settings, "wallSolverSettings")
-
-            def wall(tag):
-                res = manager.solveWall(settings)
-                if res.wallVelocity is None:
-                    raise RuntimeError("solveWall returned no wall velocity (message: %s)" % (
-                        getattr(res, "message", None),))
-                out.update({"success" + tag: bool(res.success),
-                            "vw" + tag: float(res.wallVelocity),
-                            "vwLTEres" + tag: float(res.wallVelocityLTE),
-                            "width" + tag: float(res.wallWidths[0]),
-                            "offset" + tag: float(res.wallOffsets[0]),
-                            "Tplus" + tag: float(res.temperaturePlus),
-                            "Tminus" + tag: float(res.temperatureMinus)})
-            wall("")
+            wall(manager, out, "")
             if "wall2" in stages:
                 # history: the same call again on the same manager must give the same answer
                 try:
-                    wall("2")
+                    wall(manager, out, "2")
                 except Exception as ex:
                     out["raised2"] = "%s: %s" % (type(ex).__name__, str(ex)[:200])
-            st.input_mutations += mutated(s0, settings, "wallSolverSettings")
+        if "deton" in stages:
+            try:
+                rs = manager.solveWallDetonation(settings)
+                out["nDeton"] = len(rs)
+                out["detonTypes"] = sorted(str(getattr(r, "solutionType", "")) for r in rs)
+                vws = sorted(float(r.wallVelocity) for r in rs if r.wallVelocity is not None)
+                if vws:
+                    out["vwDeton"] = vws[0]
+            except Exception as ex:
+                out["raisedDeton"] = "%s: %s" % (type(ex).__name__, str(ex)[:200])
+        st.input_mutations += mutated(s0, settings, "wallSolverSettings")
         out["mutated"] = mutated(st.config0, manager.config, "config") + st.input_mutations
     except Exception as ex:          # a run that raises is itself an output to compare
         out["raised"] = "%s: %s" % (type(ex).__name__, str(ex)[:200])
@@ -324,167 +484,201 @@ MODELS["quarticwide"] = dict(kind="quartic1", Tn=1.8, D=0.2, E=0.12, lam=0.1, T0
 # Is the Jouguet point inside the temperature range over which the low-T phase exists?
 # (Yukawa: the low-T phase ends at 1.133 Tn, below the Jouguet T-, so vJ there is computed
 # from the extrapolated EOS and is outside the property's quantifier.)
-JOUGUET_INSIDE = {"yukawa": False, "yukawa4": False, "quarticwide": True}
+JOUGUET_INSIDE = {"yukawa": False, "yukawa4": False}
+# Declared ends of phases INSIDE the range the solver asks for (in units of Tn): the only
+# places where the hop of known finding C11 can be recognised.  A run that stops anywhere
+# else is NOT excused.
+SPINODAL = {"yukawa": {"TMaxLowT": 1.1335}, "yukawa4": {"TMaxLowT": 1.1335}}
 
-# quantity -> (mass dimension, kind of tolerance)
-DIMLESS = ["vw2", "offset2", "vw", "vwLTE", "vJ", "alphaN", "alpha", "csqHigh", "csqLow", "vMin", "offset",
-           "muMinLowT", "csqLowExt"]
-DIMFUL = {"width2": -1, "Tplus2": 1, "Tminus2": 1, "width": -1, "Tplus": 1, "Tminus": 1, "pHigh": 4, "pLow": 4, "dpHigh": 3,
-          "ddpLow": 2, "eHigh": 4, "wLow": 4, "TMinLowT": 1, "TMinHighT": 1, "pLowExt": 4,
+# quantity -> mass dimension
+DIMLESS = ["vw2", "vw", "vwLTE", "vwLTEres", "vJ", "alphaN", "alpha", "csqHigh", "csqLow", "vMin",
+           "offset_b", "offset_b2", "muMinLowT", "vwDeton"]
+DIMFUL = {"width2": -1, "Tplus2": 1, "Tminus2": 1, "width": -1, "Tplus": 1, "Tminus": 1,
+          "width_b": -1, "width_b2": -1, "pHigh": 4, "pLow": 4, "dpHigh": 3,
+          "ddpLow": 2, "eHigh": 4, "wLow": 4, "TMinLowT": 1, "TMinHighT": 1,
           "TMaxHighT": 1, "TMaxLowT": 1,
-          # the finite-difference / tracer scales actually in use by the potential
-          "dTscale": 1, "phiscale": 1}
+          # the finite-difference / tracer scales: as configured and as really in use
+          "dTscale": 1, "phiscale": 1, "scaleInUsePhi": 1, "scaleInUseT": 1,
+          # the potential's own derivative routines at a fixed physical point
+          "probe_dVdphi": 3, "probe_d2Vdphi2": 2, "probe_dVdT": 3, "probe_d2VdphidT": 2}
+ABSOLUTE = ("vw", "vw2", "offset_b", "offset_b2", "vwDeton")
+INPUTS = ("dTscale", "phiscale", "scaleInUsePhi", "scaleInUseT")
+# what the un-interpolated EOS (known finding site:findLocalMinimum-absolute-step) can reach:
+# it only chooses the traced range, hence the tables and what is computed from them alone
+EOS_Q = {"alphaN", "alpha", "csqHigh", "csqLow", "vJ", "vMin", "vwLTE", "muMinLowT", "pHigh",
+         "pLow", "dpHigh", "ddpLow", "eHigh", "wLow", "TMinLowT", "TMinHighT", "TMaxLowT",
+         "TMaxHighT"}
+PROBE_TOL = 1e-4
 
 
 def tolerance_for(q, tols):
-    """tolerances derived from the configuration of the run (relative unless noted)"""
+    """tolerances derived from the configuration of the run (relative unless in ABSOLUTE)"""
     eT, pT, hR = tols["errTol"], tols["phaseTracerTol"], tols["hydroRtol"]
     eos = max(1e3 * pT, 100 * hR)
-    if q.endswith("2") and q[:-1] in ("vw", "offset", "width", "Tplus", "Tminus"):
+    if q.endswith("2") and q[:-1] in ("vw", "width", "Tplus", "Tminus", "width_b", "offset_b"):
         q = q[:-1]               # second call on the same manager: same tolerances
-    if q == "vw":
-        return 3 * eT            # absolute: root_scalar(xtol=errTol) in both runs + pressure tol
+    if q in ("vw", "vwDeton", "vwLTEres"):
+        return 3 * eT if q != "vwLTEres" else eos   # root_scalar(xtol=errTol) in both runs
     if q in ("Tplus", "Tminus"):
         return 2 * eT
-    if q == "width":
-        return max(10 * eT, 5e-3)
-    if q == "offset":
+    if q in ("width", "width_b", "offset_b"):
         return max(10 * eT, 5e-3)
     if q in ("vwLTE", "vJ", "vMin"):
         return eos
-    if q in ("dTscale", "phiscale"):
+    if q in INPUTS:
         return 1e-12             # inputs: must arrive unchanged
+    if q.startswith("probe_"):
+        return 1e-7              # order-4 stencil with a step proportional to the scale
     if q in ("TMinLowT", "TMinHighT"):
         return 1e-2              # end of the traced range: set by the tracer's step
     if q in ("TMaxLowT", "TMaxHighT"):
         # upper ends come from the template-model estimate times the configured safety
         # factor (configThermodynamics.tmax = 1.2): half of that 20% margin
         return 0.1
-    if q in ("muMinLowT", "csqLowExt", "pLowExt"):
+    if q == "muMinLowT":
         return 1e-3              # extrapolation: second derivative at the range end
     return eos
 
 
-def compare_runs(ctx, ref, run, tols, tolname):
-    """dimensionless outputs equal, dimensionful ones scaled by lam^d"""
+def describe(r):
+    s = "units x%g" % r["unit"]
+    if r.get("variant"):
+        s += " (%s)" % r["variant"]
+    if r.get("history"):
+        s += " after %s in units %s on the same %s" % (
+            "solving" if r.get("hist_stages") else "a set-up",
+            ",".join("x%g" % h for h in r["history"]), r["mode"])
+    return s
+
+
+def replay_dict(ref, run, **kw):
+    return dict(kind="metamorphic", model=run["model"], tols=run["tols"],
+                units=[ref["unit"], run["unit"]], history=run.get("history", []),
+                mode=run.get("mode", "model"), hist_stages=run.get("hist_stages", []),
+                variant=run.get("variant", ""), ref_variant=ref.get("variant", ""),
+                stages=run.get("stages", []), **kw)
+
+
+def deviations(ref, run, tols, skip=()):
+    """[(q, a, b, dimension, deviation, tolerance)] for every compared quantity that deviates"""
     name, lam = run["model"], run["unit"] / ref["unit"]
-    hist = dict(history=run.get("history", []), mode=run.get("mode", "model"))
-    if hist["history"]:
-        tolname = "%s; same %s first set up in units %s" % (
-            tolname, hist["mode"], ",".join("x%g" % h for h in hist["history"]))
-    bad = []
-    if ("raised" in ref) != ("raised" in run):
-        r = run if "raised" in run else ref
-        ctx.fail_input(
-            "%s [%s]: the run with unit factor %g raises (%s) while the run with unit "
-            "factor %g succeeds" % (name, tolname, r["unit"], r["raised"],
-                                    (ref if r is run else run)["unit"]),
-            dict(kind="metamorphic", model=name, tols=run["tols"],
-                 units=[ref["unit"], run["unit"]], quantity="raises", raised=r["raised"],
-                 **hist), key="metamorphic:raises")
-        return ["raises"]
-    if "raised" in ref:
-        return []
-    # Premise of the property: both phases exist over the temperature range the solver asks
-    # for.  When a phase ends at a spinodal inside that range the tracer should stop there
-    # (it reports that it stopped early), but it may also hop onto the other phase and go on
-    # (known finding C11 trace-hops-phase-at-spinodal), and which of the two happens is not
-    # unit independent.  Signature: one run stopped early at this end, the other run's range
-    # extends well beyond that point.  Such a pair is outside the quantifier: logged and
-    # counted, not compared.
-    for end in ("TMinHighT", "TMaxHighT", "TMinLowT", "TMaxLowT"):
-        a, b = ref[end] / ref["Tn"], run[end] / run["Tn"]
-        if abs(a - b) <= 0.1 * min(abs(a), abs(b)):
-            continue
-        sign = 1 if "Max" in end else -1
-        short, long_ = (ref, run) if sign * (a - b) < 0 else (run, ref)
-        if short.get("early", {}).get(end) and not long_.get("early", {}).get(end):
-            ctx.count("metamorphic_outside_quantifier", bucket=end)
-            ctx.log("  outside the quantifier: %s/Tn = %.4f (units x%g) vs %.4f (units x%g): a "
-                    "phase ends at a spinodal inside the requested range; the tracer stopped "
-                    "there in one unit system and hopped onto the other phase in the other "
-                    "(known finding C11); alphaN %.7g vs %.7g, vJ %.5f vs %.5f, vw %s vs %s"
-                    % (end, a, ref["unit"], b, run["unit"], ref["alphaN"], run["alphaN"],
-                       ref["vJ"], run["vJ"], ref.get("vw"), run.get("vw")))
-            return ["(outside quantifier: %s)" % end]
-    # Direct probe of the reviewed site `minimize(tol=tol)` in EffectivePotential.
-    # findLocalMinimum (scipy's BFGS differentiates Veff with an ABSOLUTE step 1.49e-8 and
-    # stops on an absolute gradient): is the EOS at Tn computed without tracing/spline
-    # (findLocalMinimum + unit-covariant finite differences in T only) covariant?
-    probe = max(abs(ref[k] - run[k]) / abs(ref[k]) for k in ("alpha0", "csqHigh0", "csqLow0"))
-    PROBE_TOL = 1e-4
-    ctx.count("probe_findLocalMinimum", bucket="dev<1e-4" if probe < PROBE_TOL else "dev>=1e-4")
-    # The un-interpolated EOS only serves to choose the temperature range that is traced;
-    # deviations of EOS-derived outputs are attributed to it only if it is itself off AND
-    # the traced ranges of the two runs differ (the visible mechanism).  Outputs of the wall
-    # solution and the inputs (variation scales) are never attributed.
-    EOS_Q = {"alphaN", "alpha", "csqHigh", "csqLow", "vJ", "vMin", "vwLTE", "muMinLowT", "pHigh",
-             "pLow", "dpHigh", "ddpLow", "eHigh", "wLow", "TMinLowT", "TMinHighT", "TMaxLowT",
-             "TMaxHighT"}
-    ranges_differ = any(
-        abs(ref[e] / ref["Tn"] - run[e] / run["Tn"]) > 0.02 * abs(ref[e] / ref["Tn"])
-        for e in ("TMinHighT", "TMaxHighT", "TMinLowT", "TMaxLowT"))
-    if probe >= PROBE_TOL:
-        what = ("%s [%s tolerances]: the EOS at Tn computed without tracing/interpolation "
-                "(EffectivePotential.findLocalMinimum + finite differences in T; what "
-                "WallGoManager.initTemperatureRange feeds the template model) is not unit "
-                "covariant: alpha %.7g vs %.7g, cs2_high %.7g vs %.7g, cs2_low %.7g vs %.7g "
-                "between units x%g and x%g (relative deviation %.2g > %.0e)%s" % (
-                    name, tolname, ref["alpha0"], run["alpha0"], ref["csqHigh0"],
-                    run["csqHigh0"], ref["csqLow0"], run["csqLow0"], ref["unit"], run["unit"],
-                    probe, PROBE_TOL, "; traced ranges differ" if ranges_differ else ""))
-        # The probe alone is not a failure: the un-interpolated EOS only chooses the traced
-        # range.  EOS-stage deviations in this pair are attributed to the site (class rule of
-        # the known finding site:findLocalMinimum-absolute-step) below.
-        ctx.count("probe_offending_pairs", bucket="x%g" % lam)
-        ctx.log("  note: " + what)
-    attributed = []
+    out = []
     for q in DIMLESS + list(DIMFUL):
-        if q not in ref or q not in run:
+        if q not in ref or q not in run or q in skip:
             continue
         if q == "vJ" and not JOUGUET_INSIDE.get(name, True):
             continue
         d = DIMFUL.get(q, 0)
         a, b = ref[q], run[q] / lam ** d
         tol = tolerance_for(q, tols)
-        dev = abs(a - b) if q in ("vw", "offset", "vw2", "offset2") else \
-            abs(a - b) / max(abs(a), 1e-300)
-        ctx.count("metamorphic_compare", bucket=q)
+        dev = abs(a - b) if q in ABSOLUTE else abs(a - b) / max(abs(a), 1e-300)
         if not dev <= tol:
-            bad.append(q)
-            if probe >= PROBE_TOL and ranges_differ and q in EOS_Q:
-                attributed.append((q, a, b, d, dev, tol))
-                continue
-            ctx.fail_input(
-                "%s [%s tolerances]: %s = %.10g in units x%g but %.10g (rescaled by "
-                "lam^%d) in units x%g: deviation %.3g > %.3g" % (
-                    name, tolname, q, a, ref["unit"], b, d, run["unit"], dev, tol),
-                dict(kind="metamorphic", model=name, tols=run["tols"], **hist,
-                     units=[ref["unit"], run["unit"]], quantity=q, reference=a, rescaled=b,
-                     dimension=d, deviation=dev, tolerance=tol),
-                key="metamorphic:%s" % q)
-    if attributed:
-        # the minima themselves are not covariant in this pair: everything downstream of
-        # findLocalMinimum is attributed to that site (one failure class)
+            out.append((q, a, b, d, dev, tol))
+    return out
+
+
+def compare_runs(ctx, ref, run, tols, tolname, counterfactual=None):
+    """dimensionless outputs equal, dimensionful ones scaled by lam^d.  `counterfactual(run)`
+    re-runs `run` with scipy's finite-difference step in findLocalMinimum scaled with the
+    field variation scale (class rule of known finding site:findLocalMinimum-absolute-step)."""
+    name, lam = run["model"], run["unit"] / ref["unit"]
+    label = "%s [%s tolerances]" % (name, tolname)
+    pair = "%s vs %s" % (describe(ref), describe(run))
+    # ---- failures are outputs too
+    if ("raised" in ref) != ("raised" in run):
+        r, o = (run, ref) if "raised" in run else (ref, run)
+        ctx.fail_input("%s: the run in %s raises (%s) while the run in %s succeeds" % (
+            label, describe(r), r["raised"], describe(o)),
+            replay_dict(ref, run, quantity="raises", raised=r["raised"]),
+            key="typed:%s:raises" % run["variant"] if run.get("variant") in (
+                "int", "intall", "scalar") else "metamorphic:raises")
+        return ["raises"]
+    if "raised" in ref:
+        # the harness's models solve on the unchanged code: a pair that fails in BOTH unit
+        # systems is not "covariant", it is a failing input of its own
+        ctx.fail_input("%s: both runs raise: %s: %s | %s: %s" % (
+            label, describe(ref), ref["raised"], describe(run), run["raised"]),
+            replay_dict(ref, run, quantity="both-raise", raised=[ref["raised"], run["raised"]]),
+            key="metamorphic:both-raise")
+        return ["both-raise"]
+    bad, skip = [], set()
+    for k in ("raised2", "raisedDeton"):
+        if (k in ref) != (k in run):
+            bad.append(k)
+            ctx.fail_input("%s: %s in one unit system only (%s)" % (
+                label, k, ref.get(k) or run.get(k)),
+                replay_dict(ref, run, quantity=k), key="metamorphic:" + k)
+    for k in ("nDeton", "detonTypes", "success", "success2"):
+        if k in ref and k in run and ref[k] != run[k]:
+            bad.append(k)
+            ctx.fail_input("%s: %s = %r in %s but %r in %s" % (
+                label, k, ref[k], describe(ref), run[k], describe(run)),
+                replay_dict(ref, run, quantity=k), key="metamorphic:" + k)
+    # ---- premise of the property: both phases exist over the range the solver asks for.
+    # At a DECLARED spinodal inside that range the tracer either stops (and says so) or hops
+    # onto the other phase (known finding C11 trace-hops-phase-at-spinodal); which of the two
+    # is not unit independent.  Only the quantities that depend on the table beyond the
+    # spinodal are then left out; everything else is still compared.
+    for end, x in SPINODAL.get(name, {}).items():
+        a, b = ref[end] / ref["Tn"], run[end] / run["Tn"]
+        short, long_ = (ref, run) if a < b else (run, ref)
+        lo, hi = min(a, b), max(a, b)
+        if abs(lo - x) <= 0.02 * x and hi > 1.1 * x and short["early"].get(end) \
+                and not long_["early"].get(end):
+            ctx.count("metamorphic_hop_at_declared_spinodal", bucket="%s:%s" % (name, end))
+            ctx.log("  hop at the declared spinodal (known finding C11): %s/Tn = %.4f vs %.4f "
+                    "(%s); vJ, vMin and the range ends are not compared for this pair" % (
+                        end, a, b, pair))
+            skip |= {"vJ", "vMin", "TMaxLowT", "TMaxHighT", "TMinLowT", "TMinHighT"}
+    devs = deviations(ref, run, tols, skip)
+    ctx.count("metamorphic_compare", bucket="%d quantities" % len(
+        [q for q in DIMLESS + list(DIMFUL) if q in ref and q in run and q not in skip]))
+    # ---- known finding site:findLocalMinimum-absolute-step, class rule:
+    #  (1) the EOS at Tn computed without tracing/spline deviates by >= 1e-4 in this pair,
+    #  (2) the traced ranges differ, (3) only EOS-stage quantities are concerned, and
+    #  (4) MECHANISM: the deviations vanish when the run is repeated with scipy's absolute
+    #      finite-difference step in findLocalMinimum scaled with the field variation scale.
+    probe = max(abs(ref[k] - run[k]) / abs(ref[k]) for k in ("alpha0", "csqHigh0", "csqLow0"))
+    ranges_differ = any(
+        abs(ref[e] / ref["Tn"] - run[e] / run["Tn"]) > 0.02 * abs(ref[e] / ref["Tn"])
+        for e in ("TMinHighT", "TMaxHighT", "TMinLowT", "TMaxLowT"))
+    ctx.count("probe_findLocalMinimum",
+              bucket="dev<1e-4" if probe < PROBE_TOL else "dev>=1e-4")
+    cand = [d for d in devs if d[0] in EOS_Q]
+    attributed = []
+    if cand and probe >= PROBE_TOL and ranges_differ and counterfactual is not None \
+            and not run.get("variant"):
+        cf = counterfactual(run)
+        if "raised" not in cf:
+            still = {d[0] for d in deviations(ref, cf, tols, skip)}
+            attributed = [d for d in cand if d[0] not in still]
+            ctx.log("  counterfactual (finite-difference step of findLocalMinimum scaled with "
+                    "the field scale) for %s: %s" % (
+                        describe(run), "removes " + ",".join(d[0] for d in attributed)
+                        if attributed else "removes nothing") +
+                    ("; remains: " + ",".join(sorted(still)) if still else ""))
+    for q, a, b, d, dev, tol in devs:
+        bad.append(q)
+        if (q, a, b, d, dev, tol) in attributed:
+            continue
         ctx.fail_input(
-            "%s [%s tolerances]: the un-interpolated EOS at Tn (findLocalMinimum + finite "
-            "differences, as used by initTemperatureRange for the template model) is not unit "
-            "covariant: alpha/cs2 deviate by %.2g between units x%g and x%g (scipy's absolute "
-            "finite-difference step / gradient tolerance in minimize); downstream: %s" % (
-                name, tolname, probe, ref["unit"], run["unit"],
+            "%s: %s = %.10g in %s but %.10g (rescaled by lam^%d) in %s: deviation %.3g > %.3g"
+            % (label, q, a, describe(ref), b, d, describe(run), dev, tol),
+            replay_dict(ref, run, quantity=q, reference=a, rescaled=b, dimension=d,
+                        deviation=dev, tolerance=tol), key="metamorphic:%s" % q)
+    if attributed:
+        ctx.fail_input(
+            "%s: the EOS at Tn computed without tracing/interpolation (findLocalMinimum + "
+            "finite differences; what initTemperatureRange feeds the template model) deviates "
+            "by %.2g between %s; the traced ranges differ; downstream %s -- all of which "
+            "vanish when scipy's absolute finite-difference step in findLocalMinimum is "
+            "scaled with the field variation scale" % (
+                label, probe, pair,
                 "; ".join("%s %.7g vs %.7g (dev %.2g > %.2g)" % (q, a, b, dev, tol)
                           for q, a, b, d, dev, tol in attributed)),
-            dict(kind="metamorphic", model=name, tols=run["tols"], **hist,
-                 units=[ref["unit"], run["unit"]], quantity="findLocalMinimum",
-                 probe=probe, downstream=[x[0] for x in attributed]),
+            replay_dict(ref, run, quantity="findLocalMinimum", probe=probe,
+                        downstream=[x[0] for x in attributed]),
             key="site:findLocalMinimum-absolute-step")
-    if "success" in ref and "success" in run and ref["success"] != run["success"]:
-        bad.append("success")
-        ctx.fail_input("%s [%s]: success flag %s vs %s under unit factor %g" % (
-            name, tolname, ref["success"], run["success"], lam),
-            dict(kind="metamorphic", model=name, tols=run["tols"], **hist,
-                 units=[ref["unit"], run["unit"]], quantity="success"),
-            key="metamorphic:success")
     return bad
 
 
@@ -725,7 +919,13 @@ Local Open Scope R_scope.
         tmin, tmax = dy(rng.uniform(0.2, 0.5), 6), dy(rng.uniform(5, 9), 6)
         hy.TMinHydro, hy.TMaxHydro = float(tmin), float(tmax)
         env = "hy%d" % k
+        tnuc = dy(rng.uniform(0.9, 1.6), 8)
+        hy.Tnucl = float(tnuc)
+        eos.dpLowT = lambda T, c=eos.c: 4 * c[2] * T ** 3 / 3
+        eos.deLowT = lambda T, c=eos.c: 4 * c[2] * T ** 3
         hdr += ("Definition %s := {| hy_TMaxHydro := %s; hy_TMinHydro := %s;\n"
+                "  hy_Tnucl := " + R(tnuc) + "; th_dpLowT := fun T => 4 * " + R(aL) +
+                " * T ^ 3 / 3; th_deLowT := fun T => 4 * " + R(aL) + " * T ^ 3;\n"
                 "  th_pHighT := fun T => %s * T ^ 4 / 3 - %s; th_pLowT := fun T => %s * T ^ 4 / 3 - %s;\n"
                 "  th_eHighT := fun T => %s * T ^ 4 + %s; th_eLowT := fun T => %s * T ^ 4 + %s;\n"
                 "  th_csqHighT := fun T => 1 / 3 + 0 * T; th_csqLowT := fun T => %s + 0 * T |}.\n" % (
@@ -840,6 +1040,23 @@ def parse_reviewed():
     return out
 
 
+def ensure_libs(ctx):
+    """The shared coq/Lib/*.vo can be stale (a dependency rebuilt by someone else without
+    its dependents): that is an environment problem, not a violation.  Probe the two library
+    files this property owns and rebuild them in place if they no longer load."""
+    probe = ctx.write("LibProbe.v", "From WG Require Import Lib.Units Lib.UnitsEos.\n")
+    ok, out, err = ctx.coqc(probe, timeout=120)
+    if ok:
+        return
+    ctx.log("environment: shared Lib .vo stale (%s); rebuilding Lib/Units.v, Lib/UnitsEos.v"
+            % vlib.tail(err, 2).replace("\n", " "))
+    for f in ("Lib/Units.v", "Lib/UnitsEos.v"):
+        rc, out, err = vlib.sh(["coqc", "-Q", vlib.COQ, "WG", os.path.join(vlib.COQ, f)],
+                               timeout=300, cwd=vlib.COQ)
+        if rc != 0:
+            ctx.log("environment: could not rebuild", f, vlib.tail(err, 4))
+
+
 def run(ctx):
     # ---- 1. gen ---------------------------------------------------------------------
     gen_ok = True
@@ -860,7 +1077,12 @@ def run(ctx):
         for f in flows:
             if not f[2]:
                 ctx.log("input not consumed on every call: %s(%s)" % (f[0], f[1]))
-        ctx.write("Sites.v", gen_units.facts_coq(sites, flows), sources=dict(
+        cached, setup_cl, solver_cl = gen_units.cached_attributes(src)
+        for a, rebuilt, read in cached:
+            if read and not rebuilt:
+                ctx.log("solver-created state not rebuilt by a new set-up: self.%s" % a)
+        ctx.write("Sites.v", gen_units.facts_coq(sites, flows, cached), sources=dict(
+            setup_closure=setup_cl, solver_closure=solver_cl,
             files=["src/WallGo/" + f for f in gen_units.SITE_FILES],
             sha={f: vlib.sha(src[f]) for f in gen_units.SITE_FILES}))
     except (pyrx.TranslateError, SyntaxError, KeyError, OSError) as e:
@@ -868,6 +1090,8 @@ def run(ctx):
         ctx.broken.append("translator: %s" % e)
         gen_ok = False
     # ---- 2. prove -------------------------------------------------------------------
+    if gen_ok:
+        ensure_libs(ctx)
     proved = gen_ok and ctx.prove(extra=["Thermo.v", "UnitsGen.v", "Sites.v"])
     ctx.trusted += ["tools/pyrx.py + tools/gen_thermo.py + tools/gen_units.py (AST translator, "
                     "dimensional analysis with the reviewed naming table DIMS)",
@@ -907,53 +1131,95 @@ def run(ctx):
         ctx.broken.append("harness: formula checks raised %r" % ex)
     # metamorphic end-to-end runs
     search = bool(ctx.broken) or sites_changed
-    W, H = ("lte", "wall", "wall2"), ()
+    W, L, H, D = ("lte", "wall", "wall2"), ("lte", "wall"), (), ("deton",)
+    pairs = []                  # (reference job, job under test, family)
+
+    def cross(m, t, units, stages, fam="units"):
+        for u in units:
+            pairs.append((J(m, 1.0, t, stages), J(m, u, t, stages), fam))
+
+    def typed(m, u, variants):
+        for v in variants:
+            pairs.append((J(m, u), J(m, u, variant=v), "typed"))
+
+    def hist(m, fresh_stages, h, u, mode, hs=(), stages=()):
+        pairs.append((J(m, u, "default", fresh_stages),
+                      J(m, u, "default", stages, h, mode, hs), "history"))
     # the recorded input of known finding site:findLocalMinimum-absolute-step
-    # (findings/C07_findLocalMinimum_units.json) is replayed first in every tier
-    RECORDED = ("yukawa4", "default", [100.0], H)
-    if ctx.quick and not search:
-        plan = [RECORDED, ("yukawa", "default", [1e-2, 10.0], W),
-                ("quarticwide", "default", [1e-2, 100.0], H)]
-    elif ctx.quick:
-        # a proof obligation / the site list / the correspondence is broken: widen the search
-        plan = [RECORDED, ("yukawa", "default", [1e-2, 1e-1, 10.0, 100.0], W),
-                ("quarticwide", "default", [1e-2, 100.0], W)]
-    else:
-        plan = [("yukawa4", "default", [100.0, 1e-2], W)] + [
-            (m, t, [1e-2, 1e-1, 10.0, 100.0], W) for m in ("yukawa", "quarticwide")
-            for t in ("default", "tight")]
-    # histories: the SAME model object (mode "model") or the same model and manager (mode
-    # "manager") set up in one unit system first and then presented in another; the last run
-    # must coincide with a fresh object presented in that unit system
+    # (findings/C07_findLocalMinimum_units.json) and of typed:intall (an int
+    # temperatureVariationScale) are replayed first in every tier
     if ctx.quick:
-        hplan = [("yukawa", "default", (1.0,), 1e-2, "model"),
-                 ("yukawa", "default", (1e-2,), 1.0, "manager")]
+        cross("yukawa4", "default", [100.0], H)
+        typed("yukawa4", 100.0, ["int", "scalar", "intall"])
+        cross("yukawa", "default", [1e-2, 10.0] + ([0.1, 100.0] if search else []), W)
+        cross("quarticlog", "default", [1e-2] + ([100.0] if search else []), L)
+        cross("quarticwide", "default", [100.0] + ([1e-2] if search else []),
+              L if search else H)
+        cross("xsm", "default", [1e-2], L)
+        # histories: solve in one unit system, re-set-up the SAME manager in another, solve
+        hist("yukawa", W, (1.0,), 1e-2, "manager", hs=L, stages=L)
+        hist("yukawa", W, (1e-2,), 1.0, "model")
+        hist("quarticlog", L, (100.0,), 1e-2, "model")
     else:
-        hplan = [(m, "default", h, u, mode)
-                 for m in ("yukawa", "quarticwide") for mode in ("model", "manager")
-                 for h, u in (((1.0,), 1e-2), ((1e-2,), 1.0), ((100.0, 1e-2), 1.0))]
+        cross("yukawa4", "default", [100.0, 1e-2], W)
+        typed("yukawa4", 100.0, ["int", "scalar", "intall"])
+        typed("xsm", 1.0, ["int", "scalar", "intall"])
+        for m in ("yukawa", "quarticwide", "quarticlog"):
+            for t in ("default", "tight"):
+                cross(m, t, [1e-2, 1e-1, 10.0, 100.0], W if m == "yukawa" else L)
+        cross("xsm", "default", [1e-2, 1e-1], W)       # x10, x100: see the known finding
+        cross("yukawa", "shipped", [1e-2, 10.0], L, "config")
+        cross("yukawa", "knobs", [1e-2, 10.0], L, "config")
+        cross("quarticlog", "knobs", [1e-2, 100.0], H, "config")
+        coll = os.path.join(vlib.REPO, "Models", "Yukawa", "CollisionOutput_N11",
+                            "collisions_psiL_psiL.hdf5")
+        if os.path.exists(coll) and os.path.getsize(coll) > 4096:
+            cross("yukawa", "default", [1e-2, 100.0], ("wall", "offeq"), "off-equilibrium")
+        else:
+            ctx.log("off-equilibrium runs skipped: the shipped collision files are git-lfs "
+                    "pointers in this checkout (%d bytes)" % (
+                        os.path.getsize(coll) if os.path.exists(coll) else 0))
+            ctx.count("offeq_skipped_no_collision_data")
+        cross("quarticwide", "default", [1e-2], D, "detonation")
+        cross("xsm", "default", [1e-2], D, "detonation")
+        for m, fs in (("yukawa", W), ("quarticlog", L)):
+            for mode in ("model", "manager"):
+                hist(m, fs, (1.0,), 1e-2, mode, hs=L, stages=L)
+                hist(m, fs, (1e-2,), 1.0, mode, hs=L, stages=L)
+                hist(m, fs, (100.0, 1e-2), 1.0, mode)
     jobs = []
-    for m, t, units, stages in plan:
-        for u in [1.0] + units:
-            jobs.append((m, u, t, stages))
-    for m, t, h, u, mode in hplan:
-        if (m, u, t) not in [j[:3] for j in jobs]:
-            jobs.append((m, u, t, ()))
-        jobs.append((m, u, t, (), tuple(h), mode))
+    for a, b, _ in pairs:
+        for j in (a, b):
+            if j not in jobs:
+                jobs.append(j)
+    cf_jobs = {}
+    for a, b, fam in pairs:             # counterfactual of the recorded input, in parallel
+        if fam == "units" and b[0] == "yukawa4" and b[1] == 100.0:
+            cf_jobs[b] = J(b[0], b[1], b[2], tuple(x for x in b[3] if x == "lte"),
+                           variant="scaledstep")
+            jobs.append(cf_jobs[b])
+    # the most expensive jobs first
+    cost = lambda j: (len(j[3]) + len(j[4]) * (1 + len(j[6]))) * (
+        3 if j[0].startswith("quartic") else 1)
+    jobs.sort(key=cost, reverse=True)
     t0 = time.time()
     with multiprocessing.Pool(min(len(jobs), 16)) as pool:
-        results = pool.map(solve_case, jobs)
-    ctx.log("metamorphic runs: %d solves in %.0fs" % (len(jobs), time.time() - t0))
-    byk = {(r["model"], r["tols"], r["unit"], tuple(r["history"]), r["mode"]): r
-           for r in results}
+        results = pool.map(solve_case, jobs, chunksize=1)
+    ctx.log("metamorphic runs: %d jobs in %.0fs" % (len(jobs), time.time() - t0))
+    byj = dict(zip(jobs, results))
+
+    def counterfactual(run):
+        key = J(run["model"], run["unit"], run["tols"], tuple(run["stages"]))
+        cj = cf_jobs.get(key) or J(run["model"], run["unit"], run["tols"],
+                                   tuple(x for x in run["stages"] if x == "lte"),
+                                   variant="scaledstep")
+        if cj not in byj:
+            byj[cj] = solve_case(cj)
+        return byj[cj]
     # purity and call-history checks on every run (no extra managers are built)
     for r in results:
-        tag = "%s [%s] units x%g%s" % (
-            r["model"], r["tols"], r["unit"],
-            " (after set-ups in units %s, same %s)" % (
-                ",".join("x%g" % h for h in r["history"]), r["mode"]) if r["history"] else "")
-        rep = dict(kind="metamorphic", model=r["model"], tols=r["tols"], history=r["history"],
-                   mode=r["mode"], units=[r["unit"], r["unit"]])
+        tag = "%s [%s] %s" % (r["model"], r["tols"], describe(r))
+        rep = replay_dict(r, r)
         ctx.count("purity_checked_runs")
         for mfield in r.get("mutated", []):
             name = re.sub(r"\[\d+\]$|\.len$", "", mfield.split(":")[0])
@@ -971,10 +1237,12 @@ def run(ctx):
                     dict(rep, quantity="second-call", raised2=r["raised2"]),
                     key="history:second-call:raises")
                 continue
-            for q in ("vw", "width", "Tplus", "Tminus", "offset"):
+            for q in ("vw", "width", "Tplus", "Tminus", "width_b", "offset_b"):
+                if q not in r:
+                    continue
                 a, b = r[q], r[q + "2"]
                 tol = tolerance_for(q, TOLSETS[r["tols"]])
-                dev = abs(a - b) if q in ("vw", "offset") else abs(a - b) / max(abs(a), 1e-300)
+                dev = abs(a - b) if q in ABSOLUTE else abs(a - b) / max(abs(a), 1e-300)
                 if not dev <= tol:
                     ctx.fail_input(
                         "%s: the second solveWall call on the same manager gives %s = %.10g, "
@@ -985,29 +1253,15 @@ def run(ctx):
                 ctx.fail_input("%s: success flag of the second solveWall call differs" % tag,
                                dict(rep, quantity="second-call:success"),
                                key="history:second-call:success")
-    for m, t, units, stages in plan:
-        ref = byk[(m, t, 1.0, (), "model")]
-        if "raised" in ref:
-            ctx.log("reference run raised:", m, t, ref["raised"])
-        for u in units:
-            r = byk[(m, t, u, (), "model")]
-            ctx.count("metamorphic_run", dict(model=m, tols=t, unit=u), bucket="unit=%g" % u)
-            bad = compare_runs(ctx, ref, r, TOLSETS[t], t)
-            ctx.log("metamorphic %-11s %-7s unit x%-6g %s  vw=%s width*Tn=%s (%.0fs)" % (
-                m, t, u, ("skipped " + bad[0]) if bad and bad[0].startswith("(") else
-                "DEVIATES in " + ",".join(bad) if bad else "covariant",
-                r.get("vw"), (r.get("width") or 0) * r.get("Tn", 0), r["seconds"]))
-    for m, t, h, u, mode in hplan:
-        ref = byk[(m, t, u, (), "model")]
-        r = byk[(m, t, u, tuple(h), mode)]
-        ctx.count("metamorphic_history", dict(model=m, history=h, unit=u, mode=mode),
-                  bucket="reuse=%s" % mode)
-        bad = compare_runs(ctx, ref, r, TOLSETS[t], t)
-        ctx.log("history     %-11s same %-7s units %s -> x%-6g vs fresh x%g: %s (%.0fs)" % (
-            m, mode, "->".join("x%g" % x for x in h), u, u,
-            ("skipped " + bad[0]) if bad and bad[0].startswith("(") else
-            "DEVIATES in " + ",".join(bad) if bad else "same as fresh", r["seconds"]))
-    ctx.sample(dict(metamorphic_reference={k: v for k, v in byk[(plan[0][0], plan[0][1], 1.0, (), "model")].items()
+    for a, b, fam in pairs:
+        ref, r = byj[a], byj[b]
+        ctx.count("metamorphic_" + fam, dict(ref=a, run=b), bucket="%s x%g" % (b[0], b[1]))
+        bad = compare_runs(ctx, ref, r, TOLSETS[b[2]], b[2], counterfactual)
+        ctx.log("%-10s %-11s %-7s %-44s %s  vw=%s width*Tn=%s (%.0fs)" % (
+            fam, b[0], b[2], describe(r) + (" vs fresh" if fam == "history" else ""),
+            "DEVIATES in " + ",".join(bad) if bad else "covariant", r.get("vw"),
+            (r.get("width") or 0) * r.get("Tn", 0), r["seconds"]))
+    ctx.sample(dict(metamorphic_reference={k: v for k, v in byj[pairs[0][0]].items()
                                            if k not in ("trace",)}))
     ctx.cov["rule"] = (
         "formula level: random bag-like EOS / analytic free-energy tables / homogeneous "
@@ -1030,14 +1284,15 @@ def replay(rep):
     print(json.dumps({k: v for k, v in rep.items() if k != "trace"}, indent=1))
     if rep.get("kind") == "metamorphic":
         u0, u1 = rep["units"]
-        st = () if rep.get("history") else ("lte", "wall", "wall2")
-        a = solve_case((rep["model"], u0, rep["tols"], st))
-        b = solve_case((rep["model"], u1, rep["tols"], st, tuple(rep.get("history", [])),
-                        rep.get("mode", "model")))
+        st = tuple(rep.get("stages") or (() if rep.get("history") else ("lte", "wall", "wall2")))
+        a = solve_case(J(rep["model"], u0, rep["tols"], st, variant=rep.get("ref_variant", "")))
+        b = solve_case(J(rep["model"], u1, rep["tols"], st, rep.get("history", ()),
+                         rep.get("mode", "model"), rep.get("hist_stages", ()),
+                         rep.get("variant", "")))
         for q in DIMLESS + list(DIMFUL):
             if q in a and q in b:
                 d = DIMFUL.get(q, 0)
-                print("%-12s %-18.10g %-18.10g (dimension %d)" % (
+                print("%-16s %-18.10g %-18.10g (dimension %d)" % (
                     q, a[q], b[q] / (u1 / u0) ** d, d))
         print("raised:", a.get("raised"), "|", b.get("raised"))
         print("second call failed:", a.get("raised2"), "|", b.get("raised2"))
